@@ -29,8 +29,10 @@ def d1(ctx, prog):
     classes = universe.analysis_classes(prog, concrete)
     seen = set()
     n = 0
+    from .. import inline
+    HOOKS = {'_batch_loop_compute', '_final_compute', '_compute_batch_size', '_compute_convergence_traces', '_compute', '_update', '_initialize', '_check'}
     for ci in classes:
-        run = prog.resolve_method(ci, 'run')
+        run = inline.inlined(prog, prog.resolve_method(ci, 'run'), skip=HOOKS)
         sig = (run.key, prog.resolve_method(ci, '_batch_loop_compute').key, prog.resolve_method(ci, '_final_compute').key,
                prog.resolve_method(ci, 'process').key)
         if sig in seen:
@@ -80,9 +82,12 @@ def d1(ctx, prog):
             if len(procs) != 1:
                 probs.append(f'process() is called {len(procs)} times on a path through the loop body')
                 continue
-            a = fl.node_of(procs[0]).args
-            if not (len(a) == 1 and isinstance(a[0], ast.Name) and a[0].id == batch):
-                probs.append(f'process() receives `{norm(a[0]) if a else "?"}`, not the loop batch `{batch}`')
+            pcall = fl.node_of(procs[0])
+            pf = prog.resolve_method(ci, 'process')
+            pname = [p_ for p_ in pf.params if p_ != 'self'][0] if pf is not None else 'traces_batch'
+            a0 = argof(pcall, pname, 0)
+            if not (len(pcall.args) + len(pcall.keywords) == 1 and isinstance(a0, ast.Name) and a0.id == batch):
+                probs.append(f'process() receives `{norm(a0) if a0 is not None else "?"}`, not the loop batch `{batch}`')
             if 'self._batch_loop_compute' in names and names.index('self._batch_loop_compute') < names.index('self.process'):
                 probs.append('_batch_loop_compute() runs before the batch is processed')
         if probs:
@@ -132,7 +137,9 @@ def d2(ctx, prog):
     key = f'{proc.key}::{norm(c)[:60]}'
     ctx.check(norm(tr) == f'{bp}.samples', 'C02-D2', key + ' traces', f'update receives traces=`{norm(tr)}`, not the samples of the batch being processed',
               'traces = samples of the processed batch', proc.where(c))
-    ctx.check(isinstance(da, ast.Call) and norm(da.func) == 'self.compute_intermediate_values' and [norm(a) for a in da.args] == [f'{bp}.metadatas'],
+    civ_ = base.methods.get('compute_intermediate_values')
+    mpn = [p_ for p_ in civ_.params if p_ != 'self'][0] if civ_ is not None else 'metadata'
+    ctx.check(isinstance(da, ast.Call) and norm(da.func) == 'self.compute_intermediate_values' and len(da.args) + len(da.keywords) == 1 and norm(argof(da, mpn, 0)) == f'{bp}.metadatas',
               'C02-D2', key + ' data', f'update receives data=`{norm(da)}`, not the intermediate values of the same batch\'s metadata',
               'data = intermediate values of the same batch\'s metadata', proc.where(c))
     civ = base.methods['compute_intermediate_values']
@@ -155,7 +162,10 @@ def d2(ctx, prog):
     for name in ('__iter__', '__getitem__'):
         f = it.methods[name]
         cs = [c for c in ast.walk(f.node) if isinstance(c, ast.Call) and prog.dotted(f.mod, c.func) == f'{CT}._TracesBatchWrapper']
-        good = len(cs) == 1 and cs[0].args and norm(cs[0].args[0]).startswith('self._ths[')
+        winit = w.methods.get('__init__')
+        wp = [p_ for p_ in winit.params if p_ != 'self'] if winit is not None else ['ths', 'frame', 'preprocesses']
+        a0 = argof(cs[0], wp[0], 0) if len(cs) == 1 else None
+        good = len(cs) == 1 and a0 is not None and norm(a0).startswith('self._ths[')
         ctx.check(bool(good), 'C02-D2', f'{f.key}::wrapper construction', 'the wrapper is not built from one slice of the iterable\'s trace set',
                   'wrapper built from self._ths[<slice>]', f.where())
         if cs:
@@ -229,8 +239,19 @@ def d4(ctx, prog):
     if loops:
         l = loops[0]
         ys = [y for y in ast.walk(l) if isinstance(y, ast.Yield)]
-        good = len(ys) == 1 and isinstance(ys[0].value, ast.Call) and ys[0].value.args and norm(ys[0].value.args[0]) == f'self._ths[{l.target.id}]'
+        winit = prog.need_class(CT, '_TracesBatchWrapper').methods.get('__init__')
+        wp0 = [p_ for p_ in winit.params if p_ != 'self'][0] if winit is not None else 'ths'
+        ya = argof(ys[0].value, wp0, 0) if len(ys) == 1 and isinstance(ys[0].value, ast.Call) else None
+        good = ya is not None and norm(ya) == f'self._ths[{l.target.id}]'
         ctx.check(bool(good), 'C02-D4', f'{f.key}::yield', 'the yielded batch is not the loop slice of the trace set', 'yields the wrapper of self._ths[<loop slice>]', f.where())
+
+
+def argof(call, name, pos):
+    """argument bound to parameter `name` (keyword) or to position `pos`"""
+    v = kw(call, name)
+    if v is None and len(call.args) > pos:
+        v = call.args[pos]
+    return v
 
 
 def d5(ctx, prog):
